@@ -93,6 +93,11 @@ size_t vp_live_bytes(void) { return S().live_bytes; }
 size_t vp_high_bytes(void) { return S().high_bytes; }
 int vp_ledger_violations(void) { return S().violations; }
 const char *vp_ledger_last_violation(void) { return S().last_violation; }
+void vp_ledger_disown_all(void) {
+    State &s = S();
+    s.live.clear();
+    s.live_bytes = 0;
+}
 void vp_ledger_forget_all(void) {
     State &s = S();
     for (auto &kv : s.live) free(kv.first);
